@@ -30,6 +30,41 @@ use vref::wire;
 use vupd::{a, empty, ns, soa, txt, Env, EnvOpts, Msg, RecordMap, Snap};
 
 // ------------------------------------------------------------------------------------------
+// variant dimensions of an exchange (set per case; read by the builders below)
+
+#[derive(Clone, Copy, Debug, Default, PartialEq, Eq, Hash)]
+struct Var {
+    /// the shared key is named like the zone (`z.`): the TSIG owner name can be (and is, by
+    /// hickory's encoder) compressed against the question name
+    key_named_like_zone: bool,
+    /// the request arrives over UDP (replies are cut to 512 bytes)
+    udp: bool,
+    /// the zone holds 10 more TXT RRs of 200 bytes (an AXFR reply over UDP is truncated)
+    big_zone: bool,
+}
+
+thread_local! {
+    static VAR: std::cell::Cell<Var> = const { std::cell::Cell::new(Var { key_named_like_zone: false, udp: false, big_zone: false }) };
+}
+
+fn var() -> Var {
+    VAR.with(|v| v.get())
+}
+
+fn set_var(v: Var) {
+    VAR.with(|c| c.set(v));
+}
+
+/// Name of the key the honest client signs with.
+fn k1_name() -> &'static str {
+    if var().key_named_like_zone {
+        "z."
+    } else {
+        "k1."
+    }
+}
+
+// ------------------------------------------------------------------------------------------
 // honest requests
 
 #[derive(Clone, Copy, Debug, PartialEq, Eq, Hash)]
@@ -38,6 +73,10 @@ enum Kind {
     UpdDelName,
     UpdPrereq,
     Axfr,
+    /// a signed NOTIFY and a signed ordinary SOA query: the statement says nothing about them, they
+    /// are run for panics and "the zone does not change" only
+    Notify,
+    QuerySoa,
 }
 
 impl Kind {
@@ -47,6 +86,8 @@ impl Kind {
             Kind::UpdDelName => "update:delete-name",
             Kind::UpdPrereq => "update:2-prerequisites+add",
             Kind::Axfr => "axfr",
+            Kind::Notify => "notify",
+            Kind::QuerySoa => "query:SOA",
         }
     }
     fn from_name(s: &str) -> Kind {
@@ -54,11 +95,16 @@ impl Kind {
             "update:add-A" => Kind::UpdAdd,
             "update:delete-name" => Kind::UpdDelName,
             "update:2-prerequisites+add" => Kind::UpdPrereq,
+            "notify" => Kind::Notify,
+            "query:SOA" => Kind::QuerySoa,
             _ => Kind::Axfr,
         }
     }
     fn is_update(self) -> bool {
-        self != Kind::Axfr
+        matches!(self, Kind::UpdAdd | Kind::UpdDelName | Kind::UpdPrereq)
+    }
+    fn judged(self) -> bool {
+        !matches!(self, Kind::Notify | Kind::QuerySoa)
     }
 }
 
@@ -99,19 +145,25 @@ fn unsigned_message(kind: Kind) -> Message {
             &Msg { prereqs: vec![empty("a.z.", ru::T_A, ru::CLASS_ANY, 0), empty("b.z.", ru::T_ANY, ru::CLASS_NONE, 0)], updates: vec![txt("b.z.", 60, "t")] },
         ),
         Kind::Axfr => vupd::query_message(0x1234, "z.", RecordType::AXFR),
+        Kind::QuerySoa => vupd::query_message(0x1234, "z.", RecordType::SOA),
+        Kind::Notify => {
+            let mut m = vupd::query_message(0x1234, "z.", RecordType::SOA);
+            m.metadata.op_code = hickory_proto::op::OpCode::Notify;
+            m
+        }
     }
 }
 
 /// The honest request: signed by the real client-side signer with key k1.
 fn honest(kind: Kind, alg: Alg, fudge: u16, time: u64) -> Vec<u8> {
-    let signer = vupd::signer("k1.", vupd::KEY1, alg_h(alg), fudge);
+    let signer = vupd::signer(k1_name(), vupd::KEY1, alg_h(alg), fudge);
     let mut m = unsigned_message(kind);
     m.finalize(&signer, time).expect("client-side signing");
     m.to_vec().expect("encode")
 }
 
 fn client_verifier(kind: Kind, alg: Alg, fudge: u16, time: u64) -> hickory_proto::rr::TSigVerifier {
-    let signer = vupd::signer("k1.", vupd::KEY1, alg_h(alg), fudge);
+    let signer = vupd::signer(k1_name(), vupd::KEY1, alg_h(alg), fudge);
     let m = unsigned_message(kind);
     signer.sign_message(&m, time).expect("sign").1.expect("verifier")
 }
@@ -119,7 +171,16 @@ fn client_verifier(kind: Kind, alg: Alg, fudge: u16, time: u64) -> hickory_proto
 // ------------------------------------------------------------------------------------------
 // key sets (what the server is configured with)
 
-const KEYSETS: [&str; 5] = ["{k1}", "{k1,k2}", "{k2}", "{}", "{k1:other-alg}"];
+const KEYSETS: [&str; 8] = [
+    "{k1}",
+    "{k1,k2}",
+    "{k2}",
+    "{}",
+    "{k1:other-alg}",
+    "{K1 (configured in upper case)}",
+    "{k1:other-alg+other-secret, k1}",
+    "{k1, k1:other-alg+other-secret}",
+];
 
 fn other_alg(a: Alg) -> Alg {
     if a == Alg::Sha512 {
@@ -130,14 +191,18 @@ fn other_alg(a: Alg) -> Alg {
 }
 
 fn ref_keys(ks: usize, alg: Alg) -> Vec<Key> {
-    let k1 = Key::new("k1.", alg, vupd::KEY1);
+    let k1 = Key::new(k1_name(), alg, vupd::KEY1);
     let k2 = Key::new("k2.", Alg::Sha256, vupd::KEY2);
+    // the same NAME configured a second time with another algorithm and another secret
+    let k1b = Key::new(k1_name(), other_alg(alg), vupd::KEY2);
     match ks {
-        0 => vec![k1],
+        0 | 5 => vec![k1],
         1 => vec![k1, k2],
         2 => vec![k2],
         3 => vec![],
-        _ => vec![Key::new("k1.", other_alg(alg), vupd::KEY1)],
+        4 => vec![Key::new(k1_name(), other_alg(alg), vupd::KEY1)],
+        6 => vec![k1b, k1],
+        _ => vec![k1, k1b],
     }
 }
 
@@ -145,7 +210,10 @@ fn server_signers(ks: usize, alg: Alg) -> Vec<TSigner> {
     ref_keys(ks, alg)
         .iter()
         .map(|k| {
-            let name = format!("{}.", String::from_utf8_lossy(&k.name[0]));
+            let mut name = format!("{}.", String::from_utf8_lossy(&k.name[0]));
+            if ks == 5 {
+                name = name.to_uppercase();
+            }
             vupd::signer(&name, &k.secret, alg_h(k.alg), 300)
         })
         .collect()
@@ -275,7 +343,7 @@ fn structural_mutants(h: &[u8], alg: Alg, fudge: u16, time: u64, out: &mut Vec<M
     };
     edit("key-name=k2(configured-elsewhere)", &|t| t.name = rt::labels_of("k2."));
     edit("key-name=unknown", &|t| t.name = rt::labels_of("kx."));
-    edit("key-name=case-variant", &|t| t.name = vec![b"K1".to_vec()]);
+    edit("key-name=case-variant", &|t| t.name = t.name.iter().map(|l| l.to_ascii_uppercase()).collect());
     edit("algorithm=hmac-sha1", &|t| t.alg_name = rt::labels_of("hmac-sha1."));
     edit("algorithm=other-supported", &|t| t.alg_name = other_alg(alg).labels());
     edit("algorithm=unknown", &|t| t.alg_name = rt::labels_of("hmac-foo."));
@@ -334,13 +402,30 @@ fn structural_mutants(h: &[u8], alg: Alg, fudge: u16, time: u64, out: &mut Vec<M
         out.push(Mutant { class: "unsigned:tsig-stripped".into(), bytes: unsigned.clone() });
     }
     // MAC recomputed
-    let k1 = Key::new("k1.", alg, vupd::KEY1);
+    let k1n = rt::labels_of(k1_name());
+    let k1 = Key::new(k1_name(), alg, vupd::KEY1);
     let k2 = Key::new("k2.", Alg::Sha256, vupd::KEY2);
+    // the TSIG owner name with its compression toggled (pointer to the question name <-> spelled out)
+    if k1n == s.walk.questions.first().map(|q| wire::lower(&q.name)).unwrap_or_default() {
+        let start = s.tsig_start;
+        let compressed = h[start] & 0xc0 == 0xc0;
+        let old_len = if compressed { 2 } else { wire::read_name(h, start).map(|(_, p)| p - start).unwrap_or(0) };
+        let mut new_name = vec![];
+        if compressed {
+            wire::emit_name(&k1n, &mut new_name);
+        } else {
+            new_name.extend_from_slice(&[0xc0, 12]);
+        }
+        let mut b = h[..start].to_vec();
+        b.extend_from_slice(&new_name);
+        b.extend_from_slice(&h[start + old_len..]);
+        out.push(Mutant { class: format!("tsig-owner-name-{}(valid)", if compressed { "spelled-out-instead-of-compressed" } else { "compressed-against-the-question" }), bytes: b });
+    }
     out.push(Mutant { class: "resigned:by-k2-as-k2".into(), bytes: rt::sign(&unsigned, &k2, &rt::labels_of("k2."), time, fudge, None) });
-    out.push(Mutant { class: "resigned:by-k2-claiming-k1".into(), bytes: rt::sign(&unsigned, &Key { name: rt::labels_of("k1."), ..k2.clone() }, &rt::labels_of("k1."), time, fudge, None) });
-    out.push(Mutant { class: "resigned:by-k1-with-response-style-mac-chaining".into(), bytes: rt::sign(&unsigned, &k1, &rt::labels_of("k1."), time, fudge, Some(&t0.mac)) });
-    out.push(Mutant { class: "resigned:by-k1-reference-signer(valid)".into(), bytes: rt::sign(&unsigned, &k1, &rt::labels_of("k1."), time, fudge, None) });
-    out.push(Mutant { class: "resigned:by-k1-key-name-upper-case(valid)".into(), bytes: rt::sign(&unsigned, &k1, &vec![b"K1".to_vec()], time, fudge, None) });
+    out.push(Mutant { class: "resigned:by-k2-claiming-k1".into(), bytes: rt::sign(&unsigned, &Key { name: k1n.clone(), ..k2.clone() }, &k1n, time, fudge, None) });
+    out.push(Mutant { class: "resigned:by-k1-with-response-style-mac-chaining".into(), bytes: rt::sign(&unsigned, &k1, &k1n, time, fudge, Some(&t0.mac)) });
+    out.push(Mutant { class: "resigned:by-k1-reference-signer(valid)".into(), bytes: rt::sign(&unsigned, &k1, &k1n, time, fudge, None) });
+    out.push(Mutant { class: "resigned:by-k1-key-name-upper-case(valid)".into(), bytes: rt::sign(&unsigned, &k1, &k1n.iter().map(|l| l.to_ascii_uppercase()).collect(), time, fudge, None) });
 }
 
 // ------------------------------------------------------------------------------------------
@@ -348,7 +433,7 @@ fn structural_mutants(h: &[u8], alg: Alg, fudge: u16, time: u64, out: &mut Vec<M
 
 struct Worker {
     rt: tokio::runtime::Runtime,
-    envs: HashMap<(usize, Alg, u8), (Env, RecordMap, Snap)>,
+    envs: HashMap<(usize, Alg, u8, Var), (Env, RecordMap, Snap)>,
     /// running digest of everything observed (determinism self-test)
     dig: u64,
 }
@@ -368,11 +453,17 @@ impl Worker {
         Worker { rt: vsim::rt(), envs: HashMap::new(), dig: 0 }
     }
     fn ensure_env(&mut self, ks: usize, alg: Alg, policy: u8) {
-        if !self.envs.contains_key(&(ks, alg, policy)) {
-            let env = self.rt.block_on(Env::new(&base_zone(), EnvOpts { signers: server_signers(ks, alg), axfr: policy_of(policy), allow_update: true, journal: false }));
+        if !self.envs.contains_key(&(ks, alg, policy, var())) {
+            let mut zone = base_zone();
+            if var().big_zone {
+                for i in 0..10 {
+                    zone.push(txt(&format!("r{i}.z."), 60, &"x".repeat(200)));
+                }
+            }
+            let env = self.rt.block_on(Env::new(&zone, EnvOpts { signers: server_signers(ks, alg), axfr: policy_of(policy), allow_update: true, journal: false }));
             let saved = self.rt.block_on(env.save());
             let snap = self.rt.block_on(env.snapshot());
-            self.envs.insert((ks, alg, policy), (env, saved, snap));
+            self.envs.insert((ks, alg, policy, var()), (env, saved, snap));
         }
     }
 }
@@ -387,9 +478,10 @@ struct Obs {
 fn run_request(w: &mut Worker, ks: usize, alg: Alg, policy: u8, now: u64, bytes: &[u8]) -> Obs {
     w.ensure_env(ks, alg, policy);
     vsim::set_unix(now);
-    let (env, saved, base) = w.envs.get(&(ks, alg, policy)).unwrap();
+    let (env, saved, base) = w.envs.get(&(ks, alg, policy, var())).unwrap();
     let rt = &w.rt;
-    let res = catch(|| rt.block_on(vsim::serve(&env.catalog, bytes, Protocol::Tcp)));
+    let proto = if var().udp { Protocol::Udp } else { Protocol::Tcp };
+    let res = catch(|| rt.block_on(vsim::serve(&env.catalog, bytes, proto)));
     let post = rt.block_on(env.snapshot());
     let changed = post != *base;
     if changed {
@@ -434,6 +526,7 @@ struct Case {
     policy: u8,
     class: String,
     bytes: Vec<u8>,
+    var: Var,
 }
 
 impl Case {
@@ -443,6 +536,7 @@ impl Case {
             "now_minus_time_signed": self.now as i128 - self.time as i128,
             "keyset": KEYSETS[self.ks], "keyset_index": self.ks, "axfr_policy": POLICY_NAMES[self.policy as usize], "policy_index": self.policy,
             "mutation": self.class, "request_hex": hex::enc(&self.bytes),
+            "key_named_like_zone": self.var.key_named_like_zone, "over_udp": self.var.udp, "big_zone": self.var.big_zone,
         })
     }
     fn from_json(v: &Value) -> Case {
@@ -456,6 +550,7 @@ impl Case {
             policy: v["policy_index"].as_u64().unwrap_or(2) as u8,
             class: v["mutation"].as_str().unwrap_or("").to_string(),
             bytes: hex::dec(v["request_hex"].as_str().unwrap_or("")).unwrap_or_default(),
+            var: Var { key_named_like_zone: v["key_named_like_zone"].as_bool().unwrap_or(false), udp: v["over_udp"].as_bool().unwrap_or(false), big_zone: v["big_zone"].as_bool().unwrap_or(false) },
         }
     }
 }
@@ -495,6 +590,7 @@ fn time_scene(now: u64, time: u64, fudge: u16) -> &'static str {
 
 /// Execute one case and judge it. Returns the reply of an accepted exchange (for the reply side).
 fn run_case(w: &mut Worker, c: &Case, l: &mut Local) -> Option<(Vec<u8>, Vec<u8>)> {
+    set_var(c.var);
     l.eval();
     let keys = ref_keys(c.ks, c.alg);
     let verdict = rt::verify_request(&c.bytes, &keys, c.now);
@@ -503,6 +599,22 @@ fn run_case(w: &mut Worker, c: &Case, l: &mut Local) -> Option<(Vec<u8>, Vec<u8>
     let scene = format!("{}:{}", if c.kind.is_update() { "update" } else { "axfr" }, c.class);
     if let Some((msg, loc)) = &obs.panic {
         l.violation(&panic_key("server", msg, loc), &format!("the server panicked on a {} request ({}; now - time signed = {}, fudge {}): {msg} at {}", c.kind.name(), c.class, c.now as i128 - c.time as i128, c.fudge, vcore::short_loc(loc)), || c.json());
+        return None;
+    }
+    if !c.kind.judged() {
+        // NOTIFY / ordinary query with a TSIG: outside the statement; only "no panic" (above) and
+        // "the zone does not change"
+        if obs.changed {
+            l.violation("zone-changed-by-a-request-that-is-no-update", &format!("a {} request changed the zone ({})", c.kind.name(), c.class), || c.json());
+        }
+        l.outcome(&format!("obs:{}:{}", c.kind.name(), if verdict.is_ok() { "tsig-valid" } else { "tsig-invalid" }));
+        if let Some(rs) = &obs.replies {
+            for r in rs {
+                if let Ok(h) = wire::read_header(r) {
+                    l.outcome(&format!("obs:{}:answered-{}", c.kind.name(), ru::rcode_name(h.rcode_low())));
+                }
+            }
+        }
         return None;
     }
     // what is the mutated request, as far as an independent reader can tell?
@@ -587,10 +699,15 @@ fn run_case(w: &mut Worker, c: &Case, l: &mut Local) -> Option<(Vec<u8>, Vec<u8>
         };
         let req_mac = rt::split(&c.bytes).map(|s| s.tsig.mac).unwrap_or_default();
         let key = &keys[verdict.clone().unwrap()];
+        let truncated = wire::read_header(&reply).map(|h| h.tc()).unwrap_or(false);
+        let tscene = if truncated { ":truncated-reply" } else { "" };
+        if truncated {
+            l.outcome("accepted:reply-truncated");
+        }
         match rt::verify_response(&reply, key, c.now, &req_mac) {
             Ok(()) => l.outcome("accepted:reply-verifies-with-reference"),
             Err(e) => l.violation(
-                &format!("accepted-reply-not-verifiable:{}", slug(&format!("{e:?}")).split('-').take(2).collect::<Vec<_>>().join("-")),
+                &format!("accepted-reply-not-verifiable:{}{tscene}", slug(&format!("{e:?}")).split('-').take(2).collect::<Vec<_>>().join("-")),
                 &format!("the reply to an accepted request does not verify with the reference verifier: {e:?} ({scene})"),
                 || {
                     let mut j = c.json();
@@ -601,16 +718,16 @@ fn run_case(w: &mut Worker, c: &Case, l: &mut Local) -> Option<(Vec<u8>, Vec<u8>
         }
         // the honest client's verifier (it knows the honest request's MAC and time)
         let honest_mac = rt::split(&honest(c.kind, c.alg, c.fudge, c.time)).map(|s| s.tsig.mac).unwrap_or_default();
-        if honest_mac == req_mac && key.name == rt::labels_of("k1.") && (c.now as i128 - c.time as i128).abs() > 300 {
+        if honest_mac == req_mac && key.name == rt::labels_of(k1_name()) && (c.now as i128 - c.time as i128).abs() > 300 {
             // the server signs its reply with its own configured fudge (300): a client whose clock
             // is further away cannot accept it whatever the server does (not judged)
             l.outcome("obs:accepted-with-client-clock-beyond-the-server-fudge");
-        } else if honest_mac == req_mac && key.name == rt::labels_of("k1.") {
+        } else if honest_mac == req_mac && key.name == rt::labels_of(k1_name()) {
             let mut v = client_verifier(c.kind, c.alg, c.fudge, c.time);
             match catch(|| v.verify(&reply)) {
                 Err(p) => l.violation(&panic_key("client", &p.msg, &p.loc), &format!("the client-side verifier panicked on the server's reply: {}", p.msg), || c.json()),
                 Ok(Ok(_)) => l.outcome("accepted:reply-verifies-with-client-verifier"),
-                Ok(Err(e)) => l.violation(&format!("accepted-reply-rejected-by-client-verifier:{}", if c.now as i128 == c.time as i128 - c.fudge as i128 { "server-clock=time-signed-minus-fudge" } else { "elsewhere-in-window" }), &format!("the client-side TSigVerifier rejects the server's reply to an accepted request: {e} ({scene}; now - time signed = {})", c.now as i128 - c.time as i128), || {
+                Ok(Err(e)) => l.violation(&format!("accepted-reply-rejected-by-client-verifier:{}", if truncated { "truncated-reply" } else if c.now as i128 == c.time as i128 - c.fudge as i128 { "server-clock=time-signed-minus-fudge" } else { "elsewhere-in-window" }), &format!("the client-side TSigVerifier rejects the server's reply to an accepted request: {e} ({scene}; now - time signed = {})", c.now as i128 - c.time as i128), || {
                     let mut j = c.json();
                     j["reply_hex"] = json!(hex::enc(&reply));
                     j
@@ -728,7 +845,7 @@ fn apply_recipe(r: &Recipe, reply: &[u8], request: &[u8], reg: &Regions) -> Opti
 /// Reply side, direct family: every tampered reply to an honest, accepted exchange is fed to a
 /// fresh client-side `TSigVerifier`.
 fn run_reply_mutants(c: &Case, reply: &[u8], req_mac: &[u8], l: &mut Local) {
-    let key = Key::new("k1.", c.alg, vupd::KEY1);
+    let key = Key::new(k1_name(), c.alg, vupd::KEY1);
     let reg = Regions::of(reply);
     for r in recipes(reply.len()) {
         let Some((class, bytes)) = apply_recipe(&r, reply, &c.bytes, &reg) else { continue };
@@ -965,7 +1082,11 @@ fn main() {
          Part D: the same reply family through the real client transports - DnsMultiplexer::with_signer over a scripted DnsClientStream and \
          UdpClientStream::with_signer over a scripted socket: the transport signs the request itself, the real server answers exactly those \
          bytes (a fresh exchange per tampered reply), the tampered reply is delivered from the server's address; the caller may receive \
-         Ok(response) only if vref::tsig (response variant, request-MAC chaining) accepts the delivered bytes, and must receive the genuine one. Oracle: effect (zone changed / AXFR answers under AllowSigned) only if vref::tsig accepts the mutated bytes under the \
+         Ok(response) only if vref::tsig (response variant, request-MAC chaining) accepts the delivered bytes, and must receive the genuine one. Part E (variants, SHA-256/fudge 300, identity + structural mutants x all 8 key sets x window offsets): the key named like the zone \
+         (TSIG owner compressed against the question; compression toggled), requests over UDP, a zone big enough that the AXFR reply over UDP \
+         is truncated, and their combinations; key sets now also: the key configured in upper case, the same key NAME configured twice with \
+         different algorithm+secret (both orders); plus a signed NOTIFY and a signed ordinary SOA query (every byte mutant; not judged beyond \
+         'no panic, zone unchanged'). Oracle: effect (zone changed / AXFR answers under AllowSigned) only if vref::tsig accepts the mutated bytes under the \
          configured keys at that clock; no AXFR data under Deny; accepted => reply verifies with the reference and with the client verifier; \
          modified reply accepted by the client only if the reference accepts it; no panic. Non-trivial = distinct (bytes, key set, clock) that \
          still parse as a message with a correctly placed trailing TSIG.",
@@ -989,12 +1110,63 @@ fn main() {
         }
         tasks.push(Task { g: gi, part: 1, slice: 0, slices: 1 });
     }
+    // part E: variant dimensions (identity + structural mutants; SHA-256, fudge 300)
+    let variants: Vec<Var> = vec![
+        Var { key_named_like_zone: true, udp: false, big_zone: false },
+        Var { key_named_like_zone: false, udp: true, big_zone: false },
+        Var { key_named_like_zone: false, udp: true, big_zone: true },
+        Var { key_named_like_zone: false, udp: false, big_zone: true },
+        Var { key_named_like_zone: true, udp: true, big_zone: true },
+    ];
+    let e_kinds = [Kind::UpdAdd, Kind::UpdDelName, Kind::UpdPrereq, Kind::Axfr, Kind::Notify, Kind::QuerySoa];
+    let n_ab = tasks.len();
+    let mut e_tasks: Vec<(Kind, Var)> = vec![];
+    for kind in e_kinds {
+        e_tasks.push((kind, Var::default()));
+        for v in &variants {
+            e_tasks.push((kind, *v));
+        }
+    }
+    ctx.set("variant_families", json!(e_tasks.len()));
     let accepted_honest: std::sync::Mutex<Vec<(Case, Vec<u8>, Vec<u8>)>> = std::sync::Mutex::new(vec![]);
     ctx.par_run_init(
-        tasks.len() as u64,
+        (tasks.len() + e_tasks.len()) as u64,
         1,
         |_| Worker::new(),
         |i, l, w| {
+            set_var(Var::default());
+            if i as usize >= n_ab {
+                let (kind, v) = e_tasks[i as usize - n_ab];
+                // the default variant is part A for the judged kinds
+                if v == Var::default() && kind.judged() {
+                    return;
+                }
+                set_var(v);
+                let h = honest(kind, Alg::Sha256, 300, T0);
+                let mut ms = vec![Mutant { class: "identity".into(), bytes: h.clone() }];
+                structural_mutants(&h, Alg::Sha256, 300, T0, &mut ms);
+                if !kind.judged() {
+                    byte_mutants(&h, &mut ms);
+                }
+                let policies: Vec<u8> = if kind == Kind::Axfr { vec![0, 2] } else { vec![2] };
+                for m in &ms {
+                    let byte_level = m.class.contains('@') || m.class.starts_with("extend");
+                    let keysets: Vec<usize> = if byte_level { vec![0] } else { (0..KEYSETS.len()).collect() };
+                    let offs: Vec<i128> = if byte_level { vec![0] } else { window_offsets(300) };
+                    for &ks in &keysets {
+                        for &p in &policies {
+                            for o in &offs {
+                                let now = (T0 as i128 + o) as u64;
+                                let c = Case { kind, alg: Alg::Sha256, fudge: 300, time: T0, now, ks, policy: p, class: m.class.clone(), bytes: m.bytes.clone(), var: v };
+                                l.outcome(&format!("variant:{}{}{}", if v.key_named_like_zone { "key=z." } else { "key=k1." }, if v.udp { "/udp" } else { "/tcp" }, if v.big_zone { "/big-zone" } else { "" }));
+                                run_case(w, &c, l);
+                            }
+                        }
+                    }
+                }
+                set_var(Var::default());
+                return;
+            }
             let t = &tasks[i as usize];
             let g = &groups[t.g];
             let policies: Vec<u8> = if g.kind.is_update() { vec![2] } else { vec![0, 1, 2] };
@@ -1021,7 +1193,7 @@ fn main() {
                         for &p in &policies {
                             for o in &offs {
                                 let now = (T0 as i128 + o) as u64;
-                                let c = Case { kind: g.kind, alg: g.alg, fudge: g.fudge, time: T0, now, ks, policy: p, class: m.class.clone(), bytes: m.bytes.clone() };
+                                let c = Case { kind: g.kind, alg: g.alg, fudge: g.fudge, time: T0, now, ks, policy: p, class: m.class.clone(), bytes: m.bytes.clone(), var: var() };
                                 if let Some((reply, mac)) = run_case(w, &c, l) {
                                     if m.class == "identity" && *o == 0 && ks == 0 {
                                         accepted_honest.lock().unwrap().push((c, reply, mac));
@@ -1045,7 +1217,7 @@ fn main() {
                             continue;
                         }
                         for ks in [0usize, 1] {
-                            let c = Case { kind: g.kind, alg: g.alg, fudge: g.fudge, time, now, ks, policy: p, class: "identity".into(), bytes: h.clone() };
+                            let c = Case { kind: g.kind, alg: g.alg, fudge: g.fudge, time, now, ks, policy: p, class: "identity".into(), bytes: h.clone(), var: var() };
                             l.outcome(&format!("clock:{}", time_scene(now, time, g.fudge)));
                             run_case(w, &c, l);
                         }
@@ -1087,6 +1259,11 @@ fn main() {
     });
 
     for class in [
+        "variant:key=z./tcp",
+        "variant:key=k1./udp/big-zone",
+        "obs:notify:tsig-valid",
+        "obs:query:SOA:tsig-invalid",
+        "accepted:reply-truncated",
         "via-multiplexer:delivered-and-reference-accepts",
         "via-multiplexer:not-delivered",
         "via-udp-client:delivered-and-reference-accepts",
